@@ -76,12 +76,15 @@ def h_add(kind, y, years, absf, wd, op, md=None):
             ab["weekday"] = wdcls(w, n)
         delta = relativedelta(**rel, **ab)
         neg = op == "sub"
-        if op == "add":
-            got = operand + delta
-        elif op == "radd":
-            got = delta + operand
-        else:
-            got = operand - delta
+        try:
+            if op == "add":
+                got = operand + delta
+            elif op == "radd":
+                got = delta + operand
+            else:
+                got = operand - delta
+        except Exception as e:       # every cell keeps the result inside years 1..9999: nothing may raise
+            ctx.fail("%s raised %s: %s" % (op, type(e).__name__, str(e)[:80]), key="raises:%s" % type(e).__name__)
         # ---------------- reference (ordinal / microsecond-of-day space, fork-free)
         sg = -1 if neg else 1                           # dt - rd == dt + (-rd): relative parts negated, absolute kept
         Y0 = ab.get("year", y) + sg * years
